@@ -1389,6 +1389,9 @@ func (c *cluster) followResizeInstruction(instr *ResizeInstruction) error {
 func (c *cluster) markResizeInstructionComplete(complete *ResizeInstructionComplete) error {
 
 	j := c.job(complete.JobID)
+	if j == nil {
+		return fmt.Errorf("resize job %d not found", complete.JobID)
+	}
 
 	// Abort the job if an error exists in the complete object.
 	if complete.Error != "" {
